@@ -167,9 +167,12 @@ class C08(Prop):
         if not isinstance(sv, np.ndarray) or sv.base is None:
             return
         h = g.new_h()
-        g.emit({"k": "aview", "out": h, "src": src, "index": enc_index(ix)})
+        ev = {"k": "aview", "out": h, "src": src, "index": enc_index(ix)}
+        if g.coin(0.08):
+            ev["ro"] = True  # the caller protects this view itself (natively read-only view of writeable memory)
+        g.emit(ev)
         g.a[h] = sv
-        g.a_ro[h] = g.a_ro.get(src, False)
+        g.a_ro[h] = g.a_ro.get(src, False) or bool(ev.get("ro"))
 
     def _g_wrap(self, g, w, d):
         hs = sorted(g.a)
@@ -804,7 +807,7 @@ class C01(Prop):
             "lane": rng.choice(["plain", "plain", "seams"]),
             "id_policy": "never",
             "max_elems": rng.choice([6, 12]),
-            "max_ndim": rng.choice([1, 2, 3]),
+            "max_ndim": rng.choice(getattr(self, "max_ndim_choices", [1, 2, 3])),
             "dtypes": rng.choice(self.dtype_choices),
             "tape": True,
             "exact": rng.random() < 0.5,
@@ -964,6 +967,7 @@ class C06(C01):
     expected_probes = ["c06.view_grad_ok", "c06.base_grad_noncontiguous"]
 
     leaf_min_ndim = 2
+    max_ndim_choices = [2, 2, 3]
 
     def generate(self, rng):
         h = super().generate(rng)
